@@ -261,6 +261,8 @@ pub fn run(ctx: &mut Ctx) -> Result<(), Violation> {
                 CLI: `rsbdd --evaluate=<DNF of f> -c <spelling> [-f t|False|any] -t` for sampled functions, every accepted spelling and every combination with a row filter. Oracle on truth tables: True => f <= r, False => r <= f, Any => r is f; r ordered, reduced, tests only variables f depends on, consists of the environment's shared nodes. \
                 Non-trivial = at least one choice is actually omitted (r != f); distinct by (table, ids, filter). Operand provenance: created in the environment through mk_choice (default), or - in a share of the random cases and in dedicated stages - plain values that belong to no environment / nodes of another environment (what BDD::<usize>::from(named) and the repository's own parser tests produce)."
         .to_string();
+    ctx.rule.push_str(" Wide stage: ");
+    ctx.rule.push_str(crate::wide::RULE);
 
     for (k, maps) in [
         (1usize, vec![vec![0usize], vec![5]]),
@@ -323,6 +325,8 @@ pub fn run(ctx: &mut Ctx) -> Result<(), Violation> {
         Ok(())
     });
     ctx.stage("api-random-functions-up-to-8-vars", false, r)?;
+    let wc = ctx.tier.cases(6_000, 200_000);
+    crate::wide::stage_retain(ctx, "wide-functions", wc)?;
 
     let spellings = ["true", "True", "t", "T", "1", "false", "False", "f", "F", "0", "any", "Any", "a", "A", "*"];
     let mut jobs: Vec<(Fun, String)> = Vec::new();
@@ -353,6 +357,9 @@ pub fn run(ctx: &mut Ctx) -> Result<(), Violation> {
 }
 
 pub fn replay(case: &Value) -> Check {
+    if let Some(r) = crate::wide::replay(case) {
+        return r;
+    }
     let f = Fun::from_json(&case["f"]);
     let filter = case["filter"].as_str().unwrap_or("");
     match (case["kind"].as_str(), f) {
